@@ -35,6 +35,7 @@ import (
 	"strconv"
 	"strings"
 	"sync"
+	"syscall"
 	"time"
 
 	"pgregory.net/rapid"
@@ -285,13 +286,23 @@ func c19TrRun(out *c19Out, raw []byte) {
 		_, port, _ := net.SplitHostPort(srv.Listener.Addr().String())
 		w.ports[i] = port
 	}
-	l, err := net.Listen("tcp", "127.0.0.1:0")
+	// the unreachable destination: a TCP socket bound to a loopback port but never listening, kept
+	// open for the whole case, so that connecting is refused and no other process (for instance
+	// another shard's child) can be given the same port meanwhile
+	fd, err := syscall.Socket(syscall.AF_INET, syscall.SOCK_STREAM, 0)
+	if err == nil {
+		err = syscall.Bind(fd, &syscall.SockaddrInet4{Port: 0, Addr: [4]byte{127, 0, 0, 1}})
+	}
 	if err != nil {
-		out.Fail("C19/harness/no-loopback", "%v", err)
+		c19HarnessTrouble(out, "no loopback socket: %v", err)
 		return
 	}
-	_, w.ports[2], _ = net.SplitHostPort(l.Addr().String())
-	_ = l.Close()
+	sa, err := syscall.Getsockname(fd)
+	if err != nil {
+		c19HarnessTrouble(out, "getsockname: %v", err)
+		return
+	}
+	w.ports[2] = strconv.Itoa(sa.(*syscall.SockaddrInet4).Port)
 
 	if c.WithDNS {
 		w.cache = NewDNSCache(c.DNSSize, time.Hour, []string{"127.0.0.0/8"}, nil)
@@ -544,5 +555,5 @@ func init() {
 	c19Scenarios["transport"] = c19TrRun
 	vfRapid("C19/transport",
 		"scheduled mode: at least two round trips of the one destinationTripper are in flight (parked in the resolver inside the dial or in the server's handler) at the same time; free mode: k >= 2 goroutines released by one barrier",
-		60, 2500, 8, c19TrGen, c19TrCheck)
+		120, 2500, 8, c19TrGen, c19TrCheck)
 }
